@@ -60,7 +60,10 @@ def member(n, orbit_gid, rng, signs="random", mix=True, local=True):
     gens = lc.graph_state_gens(n, gid)
     layer = random_local_layer(n, rng) if local else []
     gens = [pauli.propagate(g, layer) for g in gens]
-    if mix:
+    if mix == "light":      # one or two products of generators (e.g. a generator of one tensor factor multiplied onto another's), reordered
+        gens = random_basis_change(gens, rng, steps=rng.choice([1, 2, 2, 3]))
+        rng.shuffle(gens)
+    elif mix:
         gens = random_basis_change(gens, rng)
     if signs == "random":
         sv = rng.randrange(1 << n)
